@@ -21,6 +21,12 @@ CLAIMED = {
          "written window-count oracle, zero rows for unvisited cells, row sums, range, detailed balance w.r.t. visit counts, reversal "
          "invariance in sliding mode. Uses an assume/guarantee cut at the count matrix (stage 1: counts = oracle; stage 2: normalisation on "
          "fresh integer counts).", "§5 C12"),
+ "C13": ("One inductive step from an ARBITRARY valid state (any canonical partition of any subset of n<=4 cells, symbolic n x n original matrix, "
+         "current matrix defined by the lumping invariant, before/after a deletion, dense and csr): one real merge_matrix_cells / "
+         "delete_rate_cells call with every join family / deletion list in the bound re-establishes the invariant entry-wise (solver, all "
+         "real matrices) and returns the specified index list; zero row sums and symmetry preserved. One step covers histories of any "
+         "length. SQRA.cut_and_merge runs on symbolic energies, temperature and limits (4 limit combinations). No exception allowed for "
+         "in-range arguments.", "§5 C13"),
 }
 NA = {
  "C03": "Claim is that Qhull's SphericalVoronoi regions/areas are the true nearest-neighbour cells: compiled geometry with no encodable source; a stub would assume the property (the symmetric assembly around it is verified under C04).",
